@@ -191,7 +191,7 @@ def _tv_one(args):
     return trace, out, rc
 
 
-def parse_tlc_records(outfile, tags=('VIOL', 'DONE', 'STUCK')):
+def parse_tlc_records(outfile, tags=('VIOL', 'DONE', 'STUCK', 'DRIFT')):
     recs = []
     for line in open(outfile, errors='replace'):
         if not line.startswith('<<"'):
@@ -214,6 +214,7 @@ def validate_traces(trace_dir, spec='Trace_Tree', procs=NPROC):
     os.makedirs(WORK + '/tlc', exist_ok=True)
     viols = []
     events = 0
+    drift = 0
     t = time.time()
     with ThreadPoolExecutor(max_workers=procs) as ex:
         for trace, out, rc in ex.map(_tv_one, [(s, spec) for s in shards]):
@@ -227,7 +228,9 @@ def validate_traces(trace_dir, spec='Trace_Tree', procs=NPROC):
                 if tag == 'VIOL':
                     r['trace'] = trace
                     viols.append(r)
-    return viols, {'shards': len(shards), 'events': events, 'tlc_wall_s': round(time.time() - t, 1)}
+                elif tag == 'DRIFT':
+                    drift += 1
+    return viols, {'shards': len(shards), 'events': events, 'tlc_wall_s': round(time.time() - t, 1), 'drift': drift}
 
 
 # --------------------------------------------------------------- classification
